@@ -151,7 +151,8 @@ class PreprocessorData:
     def finish(self, show_statistics: bool) -> None:
         self.patch_last_wflip_address()
         self.insert_macro_start_labels_if_their_address_not_used()
-        if show_statistics:
+        # (a program that doesn't fit in the memory is going to be rejected; its - maybe astronomic - sizes aren't shown)
+        if show_statistics and self.curr_address <= (1 << self.memory_width):
             show_macro_usage_pie_graph(dict(self.macro_code_size), self.curr_address)
 
     def prepare_macro_call(self, calling_op: Union[MacroCall, RepCall]) -> PreprocessorData._PrepareMacroCall:
